@@ -467,7 +467,7 @@ def _wh_chains(rep, pool, driver, r, quick):
             lambda m: '0' if m == 0 else '1-4' if m <= 4 else '5-10' if m <= 10 else '11+')(
                 len({x for pc in t['pieces'][1:] for c, o in pc for x in c + o} - seen)))
         if 'err' not in model:
-            rep.count('wh_exact_domain' if model.get('bits', 9999) <= 53 else 'wh_tolerance_domain')
+            rep.count('wh_exact_domain' if model.get('bits', 9999) <= 49 else 'wh_tolerance_domain')
         rep.count('whChainRun_outcome:' + (cmodel.get('err') or 'Returned'))
         d = wh_problem(impl, model, cmodel)
         if d is not None and n_shrunk < 2:
